@@ -287,7 +287,7 @@ static int ex_search(char **pat)
 
 static int ex_lineno(char **num)
 {
-	int n = xrow;
+	int n = lbuf_len(xb) ? xrow : -1;	/* an empty buffer has only line 0 */
 	switch ((unsigned char) **num) {
 	case '.':
 		++*num;
